@@ -72,6 +72,20 @@ class RecCtx(AsyncContext):
         self.log.append(("pause", self.name))
 
 
+_tl = threading.local()
+
+
+@deduplicate()
+@A()
+def shared_dd(k):
+    """one deduplicated function shared by both threads, called with the same arguments in both"""
+    st = _tl.state
+    st["count"][k] = st["count"].get(k, 0) + 1
+    st["hp"]()
+    x = yield BT.DebugBatchItem("dd", (st["tag"], "dd", k))
+    return (st["tag"], k, x)
+
+
 def run_program(tag, vals, ks, hp, shape, perf):
     """One computation.  `hp()` is called at every harness-visible point.  Returns a trace dict."""
     tr = {"flushes": [], "ctx": [], "active_ok": True, "foreign": [], "result": None, "perf": None}
@@ -87,14 +101,8 @@ def run_program(tag, vals, ks, hp, shape, perf):
         hp()
     sched.on_before_batch_flush.subscribe(before)
     count = {}
-
-    @deduplicate()
-    @A()
-    def dd(k):
-        count[k] = count.get(k, 0) + 1
-        hp()
-        x = yield BT.DebugBatchItem("dd", (tag, "dd", k))
-        return (tag, k, x)
+    _tl.state = {"tag": tag, "hp": hp, "count": count}
+    dd = shared_dd
 
     @A()
     def worker(i):
